@@ -20,6 +20,8 @@ pub struct Anchor {
 #[derive(Clone, Debug, Default)]
 pub struct LoopDir {
     pub iter_name: Option<String>,
+    /// R14 (opt-in, `//@ loop N index-mut`): `for x in &mut a { .. }` -> `for vx_i in 0..a.len() { let x = &mut a[vx_i]; .. }`
+    pub index_mut: bool,
     pub lines: Vec<String>,
 }
 
@@ -160,6 +162,8 @@ fn parse_fn_block(name_line: &str, lines: &[(bool, String)]) -> FnDirective {
                 for o in it {
                     if let Some(v) = o.strip_prefix("iter=") {
                         ld.iter_name = Some(v.to_string());
+                    } else if o == "index-mut" {
+                        ld.index_mut = true;
                     }
                 }
                 curfn!().loops.insert(n, ld);
